@@ -178,6 +178,29 @@ pub fn run(ctx: &Ctx) -> i32 {
         subs.push(all_pairs(name, &rule, &items, &show, &lib_cmp, Some(&ref_cmp), None));
     }
 
+    // numeric segments around machine-integer widths, with and without leading zeros
+    {
+        let nums = [
+            "0", "1", "9", "10", "4294967295", "4294967296", "9223372036854775807", "9223372036854775808", "18446744073709551615", "18446744073709551616",
+            "99999999999999999999", "100000000000000000000", "340282366920938463463374607431768211455", "340282366920938463463374607431768211456",
+            "184467440737095516150", "00000000000000000000",
+        ];
+        let mut items: Vec<String> = vec![];
+        for n in nums {
+            for z in ["", "0", "00", "000000000000000000000"] {
+                for pre in ["", "1.", "a"] {
+                    for suf in ["", ".1", "a"] {
+                        items.push(format!("{}{}{}{}", pre, z, n, suf));
+                    }
+                }
+            }
+        }
+        items.sort();
+        items.dedup();
+        let rule = format!("all ordered pairs of {} strings built from numeric segments at the u32 / i64 / u64 / u128 boundaries × 0–21 leading zeros × prefixes {{\"\", \"1.\", \"a\"}} × suffixes {{\"\", \".1\", \"a\"}}; same oracles", items.len());
+        subs.push(all_pairs("numeric-widths", &rule, &items, &show, &lib_cmp, Some(&ref_cmp), None));
+    }
+
     // EVR triples: epoch defaulting and composition
     let epochs = ["", "0", "1", "00", "10", "a"];
     let vers = all_strings(&["1", "a", "~", "."], if ctx.thorough() { 3 } else { 2 });
